@@ -241,3 +241,11 @@ def core_root(o):
 
 
 RULES.append(("C08.g", "public scheduling methods always delegate to the validated schedule*_from with the caller's deadline", rule_wrappers))
+
+
+def rule_mustpass(ctx):
+    from . import mustpass
+    mustpass.check(ctx, ['periodic-reinserted'])
+
+
+RULES.append(("C08.h", "must-pass-through: no path around the effects this property rests on (added fast paths / early returns)", rule_mustpass))
